@@ -53,6 +53,7 @@ ST_E = st.sampled_from([1, 1, 2, 3])
 def world_spec(draw, connected=True, prod=False, chainy=False, nunits=(2, 5), keep=7, min_ext=0, orphans=False, rings=False):
     fams = []
     twins = []
+    echoes = []
     rat = _rat()
     for dim in DIMS:
         n = draw(_int(*nunits))
@@ -86,6 +87,19 @@ def world_spec(draw, connected=True, prod=False, chainy=False, nunits=(2, 5), ke
             j = draw(_int(0, n - 1))
             if i != j:
                 edges.append([i, j, draw(ST_PFX), draw(ST_BOOL), draw(_int(0, 9)) < 2])
+        if n >= 4 and draw(_int(0, 9)) < 3:
+            # an "echo": the last two units are declared against two earlier ones with one and the
+            # same, exactly representable ratio (4, 2.5, 0.25 ...) -- two unrelated declarations
+            # whose ratios are equal numbers, possibly written in different numeric types
+            R = _choose(draw, [[4, 1], [2, 1], [5, 2], [1, 4], [8, 1], [10, 1], [1, 2], [3, 1]])
+            j, k = draw(_int(0, n - 3)), draw(_int(0, n - 3))
+            edges = [e for e in edges if n - 1 not in (e[0], e[1]) and n - 2 not in (e[0], e[1])]
+            sizes[n - 1] = [sizes[j][0] * R[0], sizes[j][1] * R[1]]
+            sizes[n - 2] = [sizes[k][0] * R[0], sizes[k][1] * R[1]]
+            edges.append([n - 2, k, "", False, False])
+            edges.append([n - 1, j, "", False, False])
+            tag = dim[0].upper()
+            echoes.append([f"{tag}{n - 2}", f"{tag}{k}", f"{tag}{n - 1}", f"{tag}{j}"])
         fams.append({"dim": dim, "sizes": sizes, "edges": edges})
     ext = []
     n0 = len(fams[0]["sizes"])
@@ -100,10 +114,13 @@ def world_spec(draw, connected=True, prod=False, chainy=False, nunits=(2, 5), ke
             peers = [i for i, x in enumerate(ext) if x.get("orphan") and x["k"] == item["k"]]
             item["orphan_to"] = _choose(draw, peers) if peers and draw(ST_BOOL) else None
         ext.append(item)
-    spec = {"fams": fams, "ext": ext, "twins": twins}
+    spec = {"fams": fams, "ext": ext, "twins": twins, "echoes": echoes}
     # how the declarations are written: ratios as Decimal, the defined unit under a prefix
     # ((Kilo * a).equals(...)); both are ordinary uses of the public API
-    spec["decimal_ratios"] = draw(_int(0, 9)) < 2
+    # (all float, all Decimal, or "mixed": every other declaration Decimal, so that one route
+    # passes through links of both types)
+    sel = draw(_int(0, 9))
+    spec["decimal_ratios"] = True if sel < 2 else ("mixed" if sel < 4 else False)
     spec["lhs_prefix"] = draw(_int(0, 9)) < 3
     if prod:
         n1 = len(fams[1]["sizes"])
@@ -130,7 +147,7 @@ def prod_names(spec):
 
 
 def _mag(r: Fraction, decimal=False):
-    if r.denominator == 1:
+    if r.denominator == 1 and not decimal:
         return int(r)
     if decimal:
         from decimal import Decimal, localcontext
@@ -220,7 +237,8 @@ class SynWorld:
             self.size[a] = self.size[a] * factor
         rhs = self.build(rhs_terms)
         r = self.size[a] / self.terms_size(rhs_terms)
-        dec = bool(self.spec.get("decimal_ratios"))
+        dec = self.spec.get("decimal_ratios")
+        dec = (self.declared % 2 == 0) if dec == "mixed" else bool(dec)
         single_plain = len(rhs_terms) == 1 and rhs_terms[0][0] == "" and rhs_terms[0][2] == 1
         lhs, lhs_factor = self.units[a], Fraction(1)
         if lhs_prefixed or (self.spec.get("lhs_prefix") and (self.declared % 3 == 1)):
